@@ -192,17 +192,17 @@ Proof.
 Qed.
 
 (** *** RPCSectorRoots *)
-Definition roots_ok (c : contract) (p : prices) (auth : bool) (offset length : N) (r : option roots_resp)
+Definition roots_ok (c : contract) (sp : signed_prices) (offset length : N) (r : option roots_resp)
     (v' : view croot) (u : usage) (rr : roots_resp) : Prop :=
-  r = Some rr ∧ revise_roots (c_view c) p length = Some (v', u) ∧ auth = true ∧ length ≠ 0
+  r = Some rr ∧ revise_roots (c_view c) (sp_prices sp) length = Some (v', u) ∧ prices_valid (c_hk c) sp = true ∧ length ≠ 0
   ∧ offset + length ≤ v_filesize (c_view c) / sector_size ∧ length ≤ max_sector_batch
   ∧ len (or_roots rr) = length
   ∧ verify_roots (or_pre rr) (or_post rr) (or_roots rr) (num_sectors_up c) offset (offset + length) (v_root (c_view c)) = true
   ∧ host_signed c v' (or_sig rr) = true.
 
-Lemma roots_inv c p auth offset length r res roots :
-  client_roots c p auth offset length r = Ok (res, roots) →
-  ∃ v' u rr, roots_ok c p auth offset length r v' u rr ∧ res = signed_result c v' (or_sig rr) u ∧ roots = or_roots rr.
+Lemma roots_inv t c sp offset length r res roots :
+  client_roots t c sp offset length r = Ok (res, roots) →
+  ∃ v' u rr, roots_ok c sp offset length r v' u rr ∧ res = signed_result c v' (or_sig rr) u ∧ roots = or_roots rr.
 Proof.
   unfold client_roots, roots_decide. intros H. destruct r as [rr|]; peel; simpl in *; try discriminate.
   boolf. simplify_eq. eexists _, _, rr. split; [|done]. unfold roots_ok.
@@ -212,8 +212,8 @@ Proof.
   rewrite Hfs in *. repeat split; try done; lia.
 Qed.
 
-Theorem roots_bound c p auth offset length r res roots rs :
-  client_roots c p auth offset length r = Ok (res, roots) → v_root (c_view c) = CR rs →
+Theorem roots_bound t c sp offset length r res roots rs :
+  client_roots t c sp offset length r = Ok (res, roots) → v_root (c_view c) = CR rs →
   roots = slice rs offset length
   ∧ v_root (rr_view res) = CR rs ∧ v_filesize (rr_view res) = v_filesize (c_view c)
   ∧ v_capacity (rr_view res) = v_capacity (c_view c).
@@ -226,9 +226,9 @@ Proof.
   apply len_length. match goal with H : len (or_roots rr) = _ + _ - _ |- _ => rewrite H end. lia.
 Qed.
 
-Lemma roots_signed_priced c p auth offset length r res roots :
-  client_roots c p auth offset length r = Ok (res, roots) →
-  signed_by_both c res ∧ charged c res (p_egress p * round4k (32 * length)) 0.
+Lemma roots_signed_priced t c sp offset length r res roots :
+  client_roots t c sp offset length r = Ok (res, roots) →
+  signed_by_both c res ∧ charged c res (p_egress (sp_prices sp) * round4k (32 * length)) 0.
 Proof.
   intros (v' & u & rr & (-> & Hrev & _ & _ & _ & _ & _ & _ & Hs) & -> & ->)%roots_inv.
   unfold revise_roots in Hrev. destruct (pay _ _) eqn:Hp; simplify_eq/=.
@@ -248,8 +248,8 @@ Definition append_ok (c : contract) (p : prices) (roots : list sroot) (r1 : opti
   ∧ revise_append (c_view c) p (ar_newroot ar) (len (pick roots (ar_accepted ar))) = Some (v', u)
   ∧ host_signed c v' hs = true.
 
-Lemma append_inv c p roots r1 r3 res secs :
-  client_append c p roots r1 r3 = Ok (res, secs) →
+Lemma append_inv t c p roots r1 r3 res secs :
+  client_append t c p roots r1 r3 = Ok (res, secs) →
   ∃ v' u ar hs, append_ok c p roots r1 r3 v' u ar hs ∧ res = signed_result c v' hs u
     ∧ secs = pick roots (ar_accepted ar).
 Proof.
@@ -258,8 +258,8 @@ Proof.
   eexists _, _, ar, hs. unfold append_ok. simpl in *. repeat split; done.
 Qed.
 
-Theorem append_bound c p roots r1 r3 res secs rs :
-  client_append c p roots r1 r3 = Ok (res, secs) → v_root (c_view c) = CR rs →
+Theorem append_bound t c p roots r1 r3 res secs rs :
+  client_append t c p roots r1 r3 = Ok (res, secs) → v_root (c_view c) = CR rs →
   v_root (rr_view res) = CR (rs ++ secs)
   ∧ (∃ accepted, length accepted = length roots ∧ secs = pick roots accepted)
   ∧ len rs = num_sectors_up c
@@ -275,8 +275,8 @@ Proof.
   exists (ar_accepted ar). split; [|done]. unfold len in Hl. lia.
 Qed.
 
-Lemma append_signed_priced c p roots r1 r3 res secs :
-  client_append c p roots r1 r3 = Ok (res, secs) →
+Lemma append_signed_priced t c p roots r1 r3 res secs :
+  client_append t c p roots r1 r3 = Ok (res, secs) →
   let g := append_growth c (len secs) in let d := append_duration c p in
   signed_by_both c res
   ∧ charged c res (p_storage p * sector_size * g * d + p_ingress p * round4k (32 * g)) (p_collateral p * sector_size * g * d).
@@ -295,8 +295,8 @@ Definition free_ok (c : contract) (p : prices) (idxs : list N) (r1 : option free
   ∧ revise_free (c_view c) p (fr_newroot fr) (len (normalize idxs)) = Some (v', u)
   ∧ host_signed c v' hs = true.
 
-Lemma free_inv c p idxs r1 r3 res :
-  client_free c p idxs r1 r3 = Ok res →
+Lemma free_inv t c p idxs r1 r3 res :
+  client_free t c p idxs r1 r3 = Ok res →
   ∃ v' u fr hs, free_ok c p idxs r1 r3 v' u fr hs ∧ res = signed_result c v' hs u.
 Proof.
   unfold client_free, free_decide. intros H. destruct r1 as [fr|]; peel; simpl in *; try discriminate.
@@ -385,8 +385,8 @@ Proof.
       rewrite take_take. f_equal. simpl. lia.
 Qed.
 
-Theorem free_bound c p idxs r1 r3 res rs :
-  client_free c p idxs r1 r3 = Ok res → v_root (c_view c) = CR rs →
+Theorem free_bound t c p idxs r1 r3 res rs :
+  client_free t c p idxs r1 r3 = Ok res → v_root (c_view c) = CR rs →
   let norm := normalize idxs in
   v_root (rr_view res) = CR (swap_remove_all rs norm)
   ∧ swap_remove_all rs norm = free_apply rs norm
@@ -409,8 +409,8 @@ Proof.
   rewrite Heq. repeat split; try done. apply normalize_desc.
 Qed.
 
-Lemma free_signed_priced c p idxs r1 r3 res :
-  client_free c p idxs r1 r3 = Ok res →
+Lemma free_signed_priced t c p idxs r1 r3 res :
+  client_free t c p idxs r1 r3 = Ok res →
   signed_by_both c res ∧ charged c res (p_free p * len (normalize idxs)) 0.
 Proof.
   intros (v' & u & fr & hs & (-> & -> & _ & Hrev & Hs) & ->)%free_inv.
@@ -433,8 +433,8 @@ Proof.
   induction l; cbn [existsb]; intros H; [constructor|]. boolf. constructor; [lia|auto].
 Qed.
 
-Lemma fund_inv c deposits r res bal :
-  client_fund c deposits r = Ok (res, bal) →
+Lemma fund_inv t c deposits r res bal :
+  client_fund t c deposits r = Ok (res, bal) →
   ∃ v' u fr, fund_ok c deposits r v' u fr ∧ res = signed_result c v' (fd_sig fr) u
     ∧ bal = zip (deposits.*1) (fd_balances fr).
 Proof.
@@ -447,8 +447,8 @@ Proof.
     split; [by apply (Heqb1 d)|by apply (Heqb2 d)].
 Qed.
 
-Lemma fund_signed_priced c deposits r res bal :
-  client_fund c deposits r = Ok (res, bal) →
+Lemma fund_signed_priced t c deposits r res bal :
+  client_fund t c deposits r = Ok (res, bal) →
   signed_by_both c res ∧ charged c res (sum_N (deposits.*2)) 0
   ∧ v_root (rr_view res) = v_root (c_view c) ∧ v_filesize (rr_view res) = v_filesize (c_view c)
   ∧ bal.*1 = deposits.*1.
@@ -478,8 +478,8 @@ Definition replenish_ok (c : contract) (accounts : list N) (target : N) (r1 : op
   r1 = Some deposits ∧ accounts ≠ [] ∧ len accounts ≤ max_account_batch ∧ Forall (λ a, a ≠ 0) accounts ∧ target ≠ 0
   ∧ len deposits = len accounts ∧ Forall (λ d, d.2 ≤ target) deposits.
 
-Lemma replenish_inv c accounts target r1 r3 res deps :
-  client_replenish c accounts target r1 r3 = Ok (res, deps) →
+Lemma replenish_inv t c accounts target r1 r3 res deps :
+  client_replenish t c accounts target r1 r3 = Ok (res, deps) →
   replenish_ok c accounts target r1 r3 deps
   ∧ ((sum_N (deps.*2) = 0 ∧ res = mk_rev_result (c_view c) (c_rsig c) (c_hsig c) usage0)
      ∨ (sum_N (deps.*2) ≠ 0 ∧ ∃ v' u hs, r3 = Some hs ∧ revise_fund (c_view c) (sum_N (deps.*2)) = Some (v', u)
@@ -520,8 +520,8 @@ Proof.
     all: left; split; done.
 Qed.
 
-Theorem replenish_cost_bound c accounts target r1 r3 res deps :
-  client_replenish c accounts target r1 r3 = Ok (res, deps) →
+Theorem replenish_cost_bound t c accounts target r1 r3 res deps :
+  client_replenish t c accounts target r1 r3 = Ok (res, deps) →
   Forall (λ d, d.2 ≤ target) deps
   ∧ len deps = len accounts
   ∧ sum_N (deps.*2) ≤ target * len accounts
@@ -540,8 +540,8 @@ Proof.
     apply pay_spec in Hp as (?&?&_). unfold funding_usage, renter_cost in *. simpl in *. lia.
 Qed.
 
-Lemma replenish_signed_priced c accounts target r1 r3 res deps :
-  client_replenish c accounts target r1 r3 = Ok (res, deps) → contract_signed c →
+Lemma replenish_signed_priced t c accounts target r1 r3 res deps :
+  client_replenish t c accounts target r1 r3 = Ok (res, deps) → contract_signed c →
   signed_by_both c res
   ∧ (charged c res (sum_N (deps.*2)) 0
      ∨ (sum_N (deps.*2) = 0 ∧ rr_view res = c_view c ∧ rr_usage res = usage0))
@@ -558,19 +558,19 @@ Proof.
 Qed.
 
 (** ** C10_revision_signed_and_priced: every revising RPC at once *)
-Theorem revision_signed_and_priced c p :
-  (∀ auth offset length r res roots, client_roots c p auth offset length r = Ok (res, roots) →
-     signed_by_both c res ∧ charged c res (p_egress p * round4k (32 * length)) 0)
-  ∧ (∀ roots r1 r3 res secs, client_append c p roots r1 r3 = Ok (res, secs) →
+Theorem revision_signed_and_priced t c p :
+  (∀ sp offset length r res roots, client_roots t c sp offset length r = Ok (res, roots) →
+     signed_by_both c res ∧ charged c res (p_egress (sp_prices sp) * round4k (32 * length)) 0)
+  ∧ (∀ roots r1 r3 res secs, client_append t c p roots r1 r3 = Ok (res, secs) →
      let g := append_growth c (len secs) in let d := append_duration c p in
      signed_by_both c res
      ∧ charged c res (p_storage p * sector_size * g * d + p_ingress p * round4k (32 * g))
                      (p_collateral p * sector_size * g * d))
-  ∧ (∀ idxs r1 r3 res, client_free c p idxs r1 r3 = Ok res →
+  ∧ (∀ idxs r1 r3 res, client_free t c p idxs r1 r3 = Ok res →
      signed_by_both c res ∧ charged c res (p_free p * len (normalize idxs)) 0)
-  ∧ (∀ deposits r res bal, client_fund c deposits r = Ok (res, bal) →
+  ∧ (∀ deposits r res bal, client_fund t c deposits r = Ok (res, bal) →
      signed_by_both c res ∧ charged c res (sum_N (deposits.*2)) 0)
-  ∧ (∀ accounts target r1 r3 res deps, client_replenish c accounts target r1 r3 = Ok (res, deps) →
+  ∧ (∀ accounts target r1 r3 res deps, client_replenish t c accounts target r1 r3 = Ok (res, deps) →
      contract_signed c →
      signed_by_both c res
      ∧ (charged c res (sum_N (deps.*2)) 0
@@ -581,7 +581,7 @@ Proof.
   split; [intros; by eapply free_signed_priced|].
   split.
   - intros ???? H. apply fund_signed_priced in H as (?&?&_). done.
-  - intros ?????? H Hc. destruct (replenish_signed_priced _ _ _ _ _ _ _ H Hc) as (?&?&_). done.
+  - intros ?????? H Hc. destruct (replenish_signed_priced _ _ _ _ _ _ _ _ H Hc) as (?&?&_). done.
 Qed.
 
 (** ** C10_else_error: the functions are total and succeed only when every
@@ -622,15 +622,15 @@ Theorem else_error :
   (∀ p r, ¬ read_ok p r → client_read p r = Err)
   ∧ (∀ p r, ¬ write_ok p r → client_write p r = Err)
   ∧ (∀ p r, ¬ verify_ok p r → client_verify p r = Err)
-  ∧ (∀ c p auth offset length r, ¬ (∃ v' u rr, roots_ok c p auth offset length r v' u rr) →
-       client_roots c p auth offset length r = Err)
-  ∧ (∀ c p roots r1 r3, ¬ (∃ v' u ar hs, append_ok c p roots r1 r3 v' u ar hs) →
-       client_append c p roots r1 r3 = Err)
-  ∧ (∀ c p idxs r1 r3, ¬ (∃ v' u fr hs, free_ok c p idxs r1 r3 v' u fr hs) →
-       client_free c p idxs r1 r3 = Err)
-  ∧ (∀ c deposits r, ¬ (∃ v' u fr, fund_ok c deposits r v' u fr) → client_fund c deposits r = Err)
-  ∧ (∀ c accounts target r1 r3, ¬ (∃ deps, replenish_ok c accounts target r1 r3 deps) →
-       client_replenish c accounts target r1 r3 = Err)
+  ∧ (∀ t c sp offset length r, ¬ (∃ v' u rr, roots_ok c sp offset length r v' u rr) →
+       client_roots t c sp offset length r = Err)
+  ∧ (∀ t c p roots r1 r3, ¬ (∃ v' u ar hs, append_ok c p roots r1 r3 v' u ar hs) →
+       client_append t c p roots r1 r3 = Err)
+  ∧ (∀ t c p idxs r1 r3, ¬ (∃ v' u fr hs, free_ok c p idxs r1 r3 v' u fr hs) →
+       client_free t c p idxs r1 r3 = Err)
+  ∧ (∀ t c deposits r, ¬ (∃ v' u fr, fund_ok c deposits r v' u fr) → client_fund t c deposits r = Err)
+  ∧ (∀ t c accounts target r1 r3, ¬ (∃ deps, replenish_ok c accounts target r1 r3 deps) →
+       client_replenish t c accounts target r1 r3 = Err)
   ∧ (∀ A (r : option A), r = None → client_pass r = Err).
 Proof.
   repeat split.
@@ -638,15 +638,15 @@ Proof.
     apply read_inv in H as (rr & ? & ? & ? & ? & ? & ? & ? & ? & ? & _). exists rr. repeat split; done.
   - intros p r Hn. apply not_ok_err. intros res H. by apply Hn, (write_inv _ _ res).
   - intros p r Hn. apply not_ok_err. intros res H. by apply Hn, (verify_inv _ _ res).
-  - intros c p auth o l r Hn. apply not_ok_err. intros [res roots] H. apply Hn.
+  - intros t c sp o l r Hn. apply not_ok_err. intros [res roots] H. apply Hn.
     apply roots_inv in H as (v' & u & rr & ? & _). by exists v', u, rr.
-  - intros c p roots r1 r3 Hn. apply not_ok_err. intros [res secs] H. apply Hn.
+  - intros t c p roots r1 r3 Hn. apply not_ok_err. intros [res secs] H. apply Hn.
     apply append_inv in H as (v' & u & ar & hs & ? & _). by exists v', u, ar, hs.
-  - intros c p idxs r1 r3 Hn. apply not_ok_err. intros res H. apply Hn.
+  - intros t c p idxs r1 r3 Hn. apply not_ok_err. intros res H. apply Hn.
     apply free_inv in H as (v' & u & fr & hs & ? & _). by exists v', u, fr, hs.
-  - intros c deposits r Hn. apply not_ok_err. intros [res bal] H. apply Hn.
+  - intros t c deposits r Hn. apply not_ok_err. intros [res bal] H. apply Hn.
     apply fund_inv in H as (v' & u & fr & ? & _). by exists v', u, fr.
-  - intros c accounts target r1 r3 Hn. apply not_ok_err. intros [res deps] H. apply Hn.
+  - intros t c accounts target r1 r3 Hn. apply not_ok_err. intros [res deps] H. apply Hn.
     apply replenish_inv in H as [? _]. by exists deps.
   - by intros A r ->.
 Qed.
@@ -737,6 +737,9 @@ Section ContractExamples.
                                  300000000000000000000000000 250000000000000000000000000 1144.
   Let c0 : contract := mk_contract v0 1 2 (Sig 2 (MRev 1 2 v0)) (Sig 1 (MRev 1 2 v0)).
   Let pr : prices := mk_nprices 100 1000 2000 1000000000000 200 100.
+  (* the price table is signed by the contract's host (key 1); the transport peer in all
+     examples below is key 9, somebody else *)
+  Let spr : signed_prices := mk_signed_prices pr (Sig 1 (MPrices pr)) true.
   Let fst_or {A B} (o : option (A * B)) (d : A) : A := match o with Some (a, _) => a | None => d end.
 
   Example ex_contract_signed : contract_signed c0.
@@ -744,20 +747,20 @@ Section ContractExamples.
 
   Let v_roots := fst_or (revise_roots v0 pr 3) v0.
   Example ex_roots_ok :
-    match client_roots c0 pr true 2 3
+    match client_roots 9 c0 spr 2 3
       (Some (mk_roots_resp [SX 1; SX 2] [SX 6] [SX 3; SX 4; SX 5] (Sig 1 (MRev 1 2 v_roots)))) with
     | Ok (res, roots) => roots = [SX 3; SX 4; SX 5] ∧ v_renter v0 = v_renter (rr_view res) + 2000 * 4096
                          ∧ rr_hsig res = Sig 1 (MRev 1 2 (rr_view res))
     | Err => False
     end.
   Proof. vm_compute. repeat split; reflexivity. Qed.
-  Example ex_roots_other_range_valid_proof : client_roots c0 pr true 2 3
+  Example ex_roots_other_range_valid_proof : client_roots 9 c0 spr 2 3
       (Some (mk_roots_resp [SX 1] [SX 5; SX 6] [SX 2; SX 3; SX 4] (Sig 1 (MRev 1 2 v_roots)))) = Err.
   Proof. vm_compute. reflexivity. Qed.
-  Example ex_roots_one_root_too_many : client_roots c0 pr true 2 3
+  Example ex_roots_one_root_too_many : client_roots 9 c0 spr 2 3
       (Some (mk_roots_resp [SX 1; SX 2] [] [SX 3; SX 4; SX 5; SX 6] (Sig 1 (MRev 1 2 v_roots)))) = Err.
   Proof. vm_compute. reflexivity. Qed.
-  Example ex_roots_signature_over_cheaper_revision : client_roots c0 pr true 2 3
+  Example ex_roots_signature_over_cheaper_revision : client_roots 9 c0 spr 2 3
       (Some (mk_roots_resp [SX 1; SX 2] [SX 6] [SX 3; SX 4; SX 5]
                (Sig 1 (MRev 1 2 (fst_or (revise_roots v0 pr 200) v0))))) = Err.
   Proof. vm_compute. reflexivity. Qed.
@@ -765,7 +768,7 @@ Section ContractExamples.
   Let newroots := [SX 11; SX 12; SX 13].
   Let v_app := fst_or (revise_append v0 pr (CR (rs ++ [SX 11; SX 13])) 2) v0.
   Example ex_append_ok :
-    match client_append c0 pr newroots
+    match client_append 9 c0 pr newroots
       (Some (mk_append_resp [true; false; true] rs (CR (rs ++ [SX 11; SX 13])))) (Some (Sig 1 (MRev 1 2 v_app))) with
     | Ok (res, secs) => secs = [SX 11; SX 13] ∧ v_root (rr_view res) = CR (rs ++ [SX 11; SX 13])
                         ∧ v_filesize (rr_view res) = 8 * sector_size
@@ -773,23 +776,23 @@ Section ContractExamples.
     | Err => False
     end.
   Proof. vm_compute. repeat split; reflexivity. Qed.
-  Example ex_append_accepted_count : client_append c0 pr newroots
+  Example ex_append_accepted_count : client_append 9 c0 pr newroots
       (Some (mk_append_resp [true; true] rs (CR (rs ++ [SX 11; SX 12])))) (Some (Sig 1 (MRev 1 2 v_app))) = Err.
   Proof. vm_compute. reflexivity. Qed.
-  Example ex_append_root_of_other_sectors : client_append c0 pr newroots
+  Example ex_append_root_of_other_sectors : client_append 9 c0 pr newroots
       (Some (mk_append_resp [true; false; true] rs (CR (rs ++ [SX 11; SX 12])))) (Some (Sig 1 (MRev 1 2 v_app))) = Err.
   Proof. vm_compute. reflexivity. Qed.
-  Example ex_append_stranger_signature : client_append c0 pr newroots
+  Example ex_append_stranger_signature : client_append 9 c0 pr newroots
       (Some (mk_append_resp [true; false; true] rs (CR (rs ++ [SX 11; SX 13])))) (Some (Sig 3 (MRev 1 2 v_app))) = Err.
   Proof. vm_compute. reflexivity. Qed.
-  Example ex_append_no_signature : client_append c0 pr newroots
+  Example ex_append_no_signature : client_append 9 c0 pr newroots
       (Some (mk_append_resp [true; false; true] rs (CR (rs ++ [SX 11; SX 13])))) None = Err.
   Proof. vm_compute. reflexivity. Qed.
 
   Let freed := CR [SX 1; SX 5; SX 3; SX 6].
   Let v_free := fst_or (revise_free v0 pr freed 2) v0.
   Example ex_free_ok :
-    match client_free c0 pr [3; 1; 3] (Some (mk_free_resp rs freed)) (Some (Sig 1 (MRev 1 2 v_free))) with
+    match client_free 9 c0 pr [3; 1; 3] (Some (mk_free_resp rs freed)) (Some (Sig 1 (MRev 1 2 v_free))) with
     | Ok res => v_root (rr_view res) = freed ∧ v_filesize (rr_view res) = 4 * sector_size
                 ∧ v_renter v0 = v_renter (rr_view res) + 2 * 1000000000000
                 ∧ rr_hsig res = Sig 1 (MRev 1 2 (rr_view res))
@@ -800,45 +803,72 @@ Section ContractExamples.
     ∧ normalize [3; 1; 3] = [3; 1] ∧ desc (normalize [3; 1; 3]).
   Proof. split; [|split]; [vm_compute; reflexivity ..|]. simpl. repeat constructor. Qed.
   Example ex_free_plain_removal_root :
-    client_free c0 pr [3; 1; 3] (Some (mk_free_resp rs (CR [SX 1; SX 3; SX 5; SX 6]))) (Some (Sig 1 (MRev 1 2 v_free))) = Err.
+    client_free 9 c0 pr [3; 1; 3] (Some (mk_free_resp rs (CR [SX 1; SX 3; SX 5; SX 6]))) (Some (Sig 1 (MRev 1 2 v_free))) = Err.
   Proof. vm_compute. reflexivity. Qed.
   Example ex_free_index_beyond_contract :
-    client_free c0 pr [6] (Some (mk_free_resp rs (CR rs))) (Some (Sig 1 (MRev 1 2 v_free))) = Err.
+    client_free 9 c0 pr [6] (Some (mk_free_resp rs (CR rs))) (Some (Sig 1 (MRev 1 2 v_free))) = Err.
   Proof. vm_compute. reflexivity. Qed.
   Example ex_free_signature_over_old_revision :
-    client_free c0 pr [3; 1; 3] (Some (mk_free_resp rs freed)) (Some (Sig 1 (MRev 1 2 v0))) = Err.
+    client_free 9 c0 pr [3; 1; 3] (Some (mk_free_resp rs freed)) (Some (Sig 1 (MRev 1 2 v0))) = Err.
   Proof. vm_compute. reflexivity. Qed.
 
   Let v_fund := fst_or (revise_fund v0 30) v0.
   Example ex_fund_ok :
-    match client_fund c0 [(7, 10); (8, 20)] (Some (mk_fund_resp [15; 25] (Sig 1 (MRev 1 2 v_fund)))) with
+    match client_fund 9 c0 [(7, 10); (8, 20)] (Some (mk_fund_resp [15; 25] (Sig 1 (MRev 1 2 v_fund)))) with
     | Ok (res, bal) => bal = [(7, 15); (8, 25)] ∧ v_renter v0 = v_renter (rr_view res) + 30
                        ∧ rr_hsig res = Sig 1 (MRev 1 2 (rr_view res))
     | Err => False
     end.
   Proof. vm_compute. repeat split; reflexivity. Qed.
-  Example ex_fund_balance_count : client_fund c0 [(7, 10); (8, 20)] (Some (mk_fund_resp [15] (Sig 1 (MRev 1 2 v_fund)))) = Err.
+  Example ex_fund_balance_count : client_fund 9 c0 [(7, 10); (8, 20)] (Some (mk_fund_resp [15] (Sig 1 (MRev 1 2 v_fund)))) = Err.
   Proof. vm_compute. reflexivity. Qed.
   Example ex_fund_dearer_revision_signed :
-    client_fund c0 [(7, 10); (8, 20)] (Some (mk_fund_resp [15; 25] (Sig 1 (MRev 1 2 (fst_or (revise_fund v0 31) v0))))) = Err.
+    client_fund 9 c0 [(7, 10); (8, 20)] (Some (mk_fund_resp [15; 25] (Sig 1 (MRev 1 2 (fst_or (revise_fund v0 31) v0))))) = Err.
   Proof. vm_compute. reflexivity. Qed.
 
   Let v_repl := fst_or (revise_fund v0 13) v0.
   Example ex_replenish_ok :
-    match client_replenish c0 [7; 8; 9] 10 (Some [(7, 10); (8, 3); (9, 0)]) (Some (Sig 1 (MRev 1 2 v_repl))) with
+    match client_replenish 9 c0 [7; 8; 9] 10 (Some [(7, 10); (8, 3); (9, 0)]) (Some (Sig 1 (MRev 1 2 v_repl))) with
     | Ok (res, deps) => deps = [(7, 10); (8, 3); (9, 0)] ∧ v_renter v0 = v_renter (rr_view res) + 13
                         ∧ rr_hsig res = Sig 1 (MRev 1 2 (rr_view res))
     | Err => False
     end.
   Proof. vm_compute. repeat split; reflexivity. Qed.
   Example ex_replenish_nothing_to_do :
-    client_replenish c0 [7; 8] 10 (Some [(7, 0); (8, 0)]) None
+    client_replenish 9 c0 [7; 8] 10 (Some [(7, 0); (8, 0)]) None
     = Ok (mk_rev_result v0 (c_rsig c0) (c_hsig c0) usage0, [(7, 0); (8, 0)]).
   Proof. vm_compute. reflexivity. Qed.
-  Example ex_replenish_above_target : client_replenish c0 [7; 8; 9] 10 (Some [(7, 11); (8, 0); (9, 0)])
+  Example ex_replenish_above_target : client_replenish 9 c0 [7; 8; 9] 10 (Some [(7, 11); (8, 0); (9, 0)])
       (Some (Sig 1 (MRev 1 2 (fst_or (revise_fund v0 11) v0)))) = Err.
   Proof. vm_compute. reflexivity. Qed.
-  Example ex_replenish_extra_deposit : client_replenish c0 [7; 8; 9] 10 (Some [(7, 10); (8, 3); (9, 0); (99, 0)])
+  Example ex_replenish_extra_deposit : client_replenish 9 c0 [7; 8; 9] 10 (Some [(7, 10); (8, 3); (9, 0); (99, 0)])
       (Some (Sig 1 (MRev 1 2 v_repl))) = Err.
+  Proof. vm_compute. reflexivity. Qed.
+  (** the peer on the transport (key 9) is not the contract's host (key 1): whatever it
+      signs with its own key is refused, by every revising RPC *)
+  Let spr9 : signed_prices := mk_signed_prices pr (Sig 9 (MPrices pr)) true.
+  Let honest_roots s := Some (mk_roots_resp [SX 1; SX 2] [SX 6] [SX 3; SX 4; SX 5] s).
+  Example ex_roots_peer_prices_peer_signature : client_roots 9 c0 spr9 2 3 (honest_roots (Sig 9 (MRev 1 2 v_roots))) = Err.
+  Proof. vm_compute. reflexivity. Qed.
+  Example ex_roots_host_prices_peer_signature : client_roots 9 c0 spr 2 3 (honest_roots (Sig 9 (MRev 1 2 v_roots))) = Err.
+  Proof. vm_compute. reflexivity. Qed.
+  Example ex_roots_peer_prices_host_signature : client_roots 9 c0 spr9 2 3 (honest_roots (Sig 1 (MRev 1 2 v_roots))) = Err.
+  Proof. vm_compute. reflexivity. Qed.
+  Example ex_roots_expired_prices : client_roots 9 c0 (mk_signed_prices pr (Sig 1 (MPrices pr)) false) 2 3 (honest_roots (Sig 1 (MRev 1 2 v_roots))) = Err.
+  Proof. vm_compute. reflexivity. Qed.
+  Example ex_append_peer_signature : client_append 9 c0 pr newroots
+      (Some (mk_append_resp [true; false; true] rs (CR (rs ++ [SX 11; SX 13])))) (Some (Sig 9 (MRev 1 2 v_app))) = Err.
+  Proof. vm_compute. reflexivity. Qed.
+  Example ex_append_peer_signature_naming_itself_host : client_append 9 c0 pr newroots
+      (Some (mk_append_resp [true; false; true] rs (CR (rs ++ [SX 11; SX 13])))) (Some (Sig 9 (MRev 9 2 v_app))) = Err.
+  Proof. vm_compute. reflexivity. Qed.
+  Example ex_free_peer_signature :
+    client_free 9 c0 pr [3; 1; 3] (Some (mk_free_resp rs freed)) (Some (Sig 9 (MRev 1 2 v_free))) = Err.
+  Proof. vm_compute. reflexivity. Qed.
+  Example ex_fund_peer_signature :
+    client_fund 9 c0 [(7, 10); (8, 20)] (Some (mk_fund_resp [15; 25] (Sig 9 (MRev 1 2 v_fund)))) = Err.
+  Proof. vm_compute. reflexivity. Qed.
+  Example ex_replenish_peer_signature :
+    client_replenish 9 c0 [7; 8; 9] 10 (Some [(7, 10); (8, 3); (9, 0)]) (Some (Sig 9 (MRev 1 2 v_repl))) = Err.
   Proof. vm_compute. reflexivity. Qed.
 End ContractExamples.
